@@ -80,6 +80,7 @@ def tracing(tr, stop_before_propagators=False):
     def sing(P, A):
         r = saved["sing"](P, A)
         tr["singularities"] = {"P": P.copy(), "A": A.copy(), "conditions": [{str(k): str(v) for k, v in c.items()} for c in r]}
+        tr.setdefault("singularity_calls", []).append({"P": P.copy(), "A": A.copy(), "conditions": list(r)})
         return r
 
     S.from_shapes = classmethod(from_shapes)
